@@ -159,6 +159,8 @@ void add_subruns(uint64_t n, uint64_t distinct_nontrivial);
 #define SIM_CHECK(cond, cls, ...) do { if (!(cond)) ::sim::fail(cls, __VA_ARGS__); } while (0)
 
 bool verbose();
+// Terminates the process immediately (raw exit_group: no atexit handlers, no sanitizer finalisation).
+[[noreturn]] void hard_exit(int code);
 
 // ---------------------------------------------------------------------------------------------------------------
 // Fault plumbing shared by the seams.
@@ -257,6 +259,28 @@ namespace vm {
   void set_observer(Observer fn, void* ctx);
   void reset_run_generation();
   void end_run_cleanup();   // unmaps excused / leaked mappings for real so address space does not fill up
+}
+
+// ---------------------------------------------------------------------------------------------------------------
+// SimSched - seeded scheduler over real threads (exactly one simulated thread runs at any instant).
+// ---------------------------------------------------------------------------------------------------------------
+namespace sched {
+  typedef void (*Body)(int tid, void* arg);
+  typedef void (*H2Observer)(void* ctx, const void* obj, const char* site, int held_locks);
+  // Runs `n` simulated threads to completion. strategy: 0 = random walk, 1 = PCT-like priorities with change points.
+  void run(int n, Body body, void* arg, uint64_t seed, int strategy);
+  bool active();
+  int current_tid();              // -1 outside simulated threads
+  void yield();                   // explicit scheduling point (operation boundaries)
+  uint64_t steps();
+  uint64_t switches();
+  uint64_t locks_observed();      // wrapped pthread_mutex_lock calls by simulated threads
+  uint64_t lock_order_hash();     // hash of the order in which threads entered critical sections
+  uint64_t current_cs();          // sequence number of the calling thread's latest critical section
+  int held_locks();
+  // Sequence numbers of the critical sections the calling thread entered since the last call.
+  std::vector<uint64_t> take_cs_seqs();
+  void set_h2_observer(H2Observer fn, void* ctx);
 }
 
 // ---------------------------------------------------------------------------------------------------------------
